@@ -23,11 +23,11 @@ def run(tier):
         try:
             out, mon, viol, steps = hooks.table(db, fn)
         except hooks.Budget:
-            R.broke('step budget exceeded in ' + fn['disp'][:200]); continue
+            R.broke_at(fn.get('_unit'), 'step budget exceeded in ' + fn['disp'][:200]); continue
         except hooks.Unmodelled as u:
-            R.broke('unmodelled construct: %s in %s' % (u, fn['disp'][:200])); continue
+            R.broke_at(fn.get('_unit'), 'unmodelled construct: %s in %s' % (u, fn['disp'][:200])); continue
         if not out:
-            R.broke('no completed path through ' + fn['disp'][:200]); continue
+            R.broke_at(fn.get('_unit'), 'no completed path through ' + fn['disp'][:200]); continue
         probs, info = hooks.check_dispatch(db, fn, out, mon)
         for v in viol:
             if v[0].startswith('H'): probs.append((v[0], v[1], {'at': core.rel(v[2])}))
